@@ -117,3 +117,64 @@ def SPEC_NAMEDPOS(p, t, include_empty, relative):
 def SPEC_SPLIT(p, t):
     n = NMATCHES(p, t)
     return APPENDED(SPLITS(p, t, n), t[PREVEND(p, t, n):])
+
+
+# ---- groups (C08) -------------------------------------------------------------------------------------------------
+
+def REF_CAPTURE(p, name):
+    # exactly one capturing group around the operand; a group-shaped operand is converted / renamed, not nested
+    if EMPTY(p):
+        return ''
+    if NONE(name):
+        op = '('
+    else:
+        op = '(?P<' + name + '>'
+    if TYPE(p) != 'Group':
+        return op + TEXT(p) + ')'
+    sh = SHAPE(p)
+    if sh == 'nc' or sh == 'cap':
+        return op + BODY(p) + ')'
+    if sh == 'named':
+        if NONE(name):
+            return TEXT(p)
+        return op + BODY(p) + ')'
+    return op + TEXT(p) + ')'
+
+
+def REF_GROUP(p, ci):
+    if EMPTY(p):
+        return ''
+    if ci:
+        op = '(?i:'
+    else:
+        op = '(?:'
+    if TYPE(p) != 'Group':
+        return op + TEXT(p) + ')'
+    sh = SHAPE(p)
+    if sh == 'nc' or sh == 'nci' or sh == 'cap' or sh == 'named':
+        return op + BODY(p) + ')'
+    return op + TEXT(p) + ')'
+
+
+# ---- class forms = folds of the method forms (G7) --------------------------------------------------------------
+
+def FOLD(pres, op):
+    if len(pres) == 0:
+        return ''
+    r = TP(pres[0])
+    for p in pres[1:]:
+        r = METHOD(r, op, p)
+    return TEXT(r)
+
+
+def FOLD_EXC(pres, op):
+    # name of the exception the left fold through method `op` raises first ('' if none)
+    if BADPRE(pres[0]):
+        return 'InvalidArgumentTypeException'
+    r = TP(pres[0])
+    for p in pres[1:]:
+        e = FIRST_EXC(op, r, p)
+        if e != '':
+            return e
+        r = METHOD(r, op, p)
+    return ''
